@@ -98,7 +98,7 @@ Proof.
     split; [exact Hp1|]. exists b1. split; [exact Hb1|].
     intros us t HR Hr. unfold u_align. cbn [Z.eqb]. apply Hu; assumption.
   - set (n' := if maxAl (p_rd s) <? n then maxAl (p_rd s) else n) in *.
-    destruct (is_pow2 n'); cbn [negb] in E; [|discriminate].
+    destruct (is_pow2 n') eqn:PW; cbn [negb] in E; [|discriminate].
     assert (Hn' : 0 < n').
     { destruct Hpre as [_ M]. subst n'. destruct (Z.ltb_spec (maxAl (p_rd s)) n); lia. }
     set (p := pad_to n' (len (p_w s))) in *.
@@ -109,7 +109,7 @@ Proof.
     { rewrite Hb1. cbn [p_write p_w]. now rewrite app_assoc. }
     intros us t HR Hr. unfold u_align.
     destruct (Z.eqb_spec n 0); [lia|].
-    destruct HR as (A & B & C & D). rewrite <- A. fold n'. rewrite C. fold p.
+    destruct HR as (A & B & C & D). rewrite <- A. fold n'. rewrite PW. cbn [negb]. rewrite C. fold p.
     assert (HR' : R (p_write s (zeros p)) (u_adv us p)).
     { unfold R, p_write, u_adv. cbn. rewrite len_app, len_zeros, C by lia. auto. }
     rewrite <- app_assoc in Hr.
@@ -418,7 +418,8 @@ Proof.
   unfold p_next_str, p_next in E. cbn [p_set_fmt p_vals] in E.
   destruct (p_vals s) as [|v vs] eqn:EV; [discriminate|].
   destruct (to_str v) as [str| |] eqn:ET; try discriminate.
-  cbn [p_pop] in E. unfold p_write_str in E.
+  cbn [p_pop] in E. unfold p_write_str in E. cbn [andb] in E.
+  match type of E with match (if ?c then _ else _) with _ => _ end = _ => destruct c eqn:EG; [discriminate|] end.
   match type of E with match (if ?c then _ else _) with _ => _ end = _ => destruct c eqn:ED; [discriminate|] end.
   injection E as <-.
   destruct Hpre as [V M]. rewrite EV in V. inversion V as [|? ? Vv Vvs]; subst.
